@@ -138,9 +138,10 @@ def run_property(prop, tier, seed, jobs=None, only=None, verbose=False):
         "wall_s": round(wall, 2),
         "violations": violations,
     }
-    os.makedirs(os.path.join(VERIF, "evidence"), exist_ok=True)
-    with open(os.path.join(VERIF, "evidence", f"{prop}.json"), "w") as fh:
-        json.dump(ev, fh, indent=1, sort_keys=True)
+    if not os.environ.get("PYVC_NO_EVIDENCE") and not only:
+        os.makedirs(os.path.join(VERIF, "evidence"), exist_ok=True)
+        with open(os.path.join(VERIF, "evidence", f"{prop}.json"), "w") as fh:
+            json.dump(ev, fh, indent=1, sort_keys=True)
     slow = sorted(results, key=lambda r: -r["wall_s"])[:4]
     lines.append("slowest families: " + ", ".join(f"{r['family']} {r['wall_s']}s ({r['paths']} paths)" for r in slow))
     for l in lines:
@@ -169,6 +170,9 @@ def main(argv=None):
     if a.what == "replay":
         from . import replay
         return replay.run_file(a.path)
+    if a.what == "selftest":
+        from . import selftest
+        return selftest.main(a.only)
     if a.what == "list":
         from .loader import Program
         prog = Program()
